@@ -5,7 +5,7 @@ LIB = 'assumed NumPy/SciPy contracts (DESIGN 3.2): '
 ASSUMED = {
     'C01': [LIB + 'np.linalg.qr(reduced): Q R = B, Q^H Q = I, k = min(p, r), real diagonal of R',
             'K_qr factorization clauses of bond_ops.qr (Q R = A, Q^H Q = I, supports of Q and R) are used as callee contract of the local steps; '
-            'engine Z proves from the body of qr only its size/bounds/dummy-branch clauses, the factorization clauses are bounded (C11)',
+            'engine Z proves from the body of qr its size/bounds/dummy-branch clauses and the block sparsity of Q and R under the intermediate charges (support predicate, vt/zqr.py); Q R = A and Q^H Q = I are bounded (C11)',
             'modelling of Python lists as mathematical sequences (array stores = list updates) in the predicate-level sweeps',
             'T[0,0,0].real is the whole value of the trailing 1x1 factor (real diagonal of R)'],
     'C02': ['K_qr / K_svd callee contracts (see C01, C12)', 'closure under operation histories is the induction over the per-operation contracts; '
@@ -15,8 +15,8 @@ ASSUMED = {
     'C04': ['Python lists as sequences; complex scalars T[0,0] are opaque values at the predicate level'],
     'C05': ['minimum_vertex_cover returns a vertex cover of minimum size (K_cover; weak duality proved in Lean, validity/maximality bounded in C18)'],
     'C06': [], 'C07': [],
-    'C08': ['K_lanczos / eigh_tridiagonal / expm contracts are not used deductively; callable arguments of expm_krylov are assumed pure (engine F)'],
-    'C09': [], 'C10': ['callable arguments of eigh_krylov are assumed pure (engine F)'],
+    'C08': ['K_lanczos / eigh_tridiagonal / expm contracts are not used deductively; callable arguments of expm_krylov are assumed not to modify their arguments (engine F)'],
+    'C09': [], 'C10': ['callable arguments of eigh_krylov are assumed not to modify their arguments (engine F)'],
     'C11': [LIB + 'np.intersect1d (strictly increasing common values, complete), np.argsort (stable sorting permutation with inverse), np.where(mask)[0] '
             '(increasing, complete), np.arange, np.linalg.qr shapes', 'is_qsparse(A, [q0, -q1]) (leading assert) is the precondition: A[i,j] != 0 => q0[i] == q1[j]'],
     'C12': [LIB + 'np.linalg.norm, elementwise division/square, np.argsort, gather/scatter through a permutation, np.cumsum, np.where; '
@@ -25,10 +25,10 @@ ASSUMED = {
             'least-number principle and induction over the rank are proof rules of the generator (base and step VCs are discharged by z3)'],
     'C13': ['K_svd as in C12; callee contract of MPS.orthonormalize as proved by the sweep contracts of C01',
             'compress of the zero state divides by |T| = 0: the property is stated for non-zero states (assumed precondition)'],
-    'C14': ['Afunc maps a vector of length n to a vector of length n', 'loops are over-approximated by havoc with inferred shape invariants'],
+    'C14': ['Afunc maps a vector of length n to a vector of length n and does not modify its argument', 'loops are over-approximated by havoc with inferred shape invariants'],
     'C15': ['contracts of lanczos_iteration / arnoldi_iteration as proved in C14 (sizes only), eigh_tridiagonal and expm return arrays of the documented shapes'],
     'C16': [], 'C17': [], 'C18': ['the Lean lemma is about abstract finite sets of edges; its link to the Python data structures is not machine-checked'],
-    'C19': ['callable arguments (Afunc, opics(i), active(i)) are pure', 'unknown methods are pure and may return a view of their receiver',
+    'C19': ['callable arguments (Afunc, opics(i), active(i)) do not modify their arguments (their results are treated as caller-owned memory that may alias the arguments)', 'unknown methods are pure and may return a view of their receiver',
             'which values are immutable (ints, tuples) is unknown to the analysis: must-alias of results needs native confirmation'],
     'C20': [],
 }
@@ -45,8 +45,8 @@ BOUNDED_ONLY = {
     'C08': ['norm and energy conservation', 'returned value equals the input norm', 'single-site TDVP never increases a bond dimension'],
     'C09': ['exactness on a complete manifold', 'time reversibility'],
     'C10': ['variational bounds', 'monotonicity', 'last energy equals the energy of the returned state', 'exact ground state on a complete manifold'],
-    'C11': ['Q R = A', 'Q^H Q = I', 'block sparsity of Q and R under the intermediate charges'],
-    'C12': ['isometry of u and v', 'error identity ||A - u s v||^2 = sum of discarded s^2', 'tol = 0 reproduces A', 'block sparsity of u and v'],
+    'C11': ['Q R = A', 'Q^H Q = I'],
+    'C12': ['isometry of u and v', 'error identity ||A - u s v||^2 = sum of discarded s^2', 'tol = 0 reproduces A'],
     'C13': ['scale in [sqrt(1 - L tol), 1]', 'error identity for compress', 'first truncated bond keeps the prescribed Schmidt values', 'from_vector error bound'],
     'C14': ['orthonormality of the Krylov vectors', 'projected map equals the tridiagonal / Hessenberg matrix', 'positivity of beta'],
     'C15': ['Ritz value bounds', 'norm preservation of the Hermitian exponential', 'exactness once the Krylov space is exhausted'],
